@@ -920,18 +920,18 @@ Proof.
 Qed.
 
 (* the string API, isolation off: format_pattern returns the text write_pattern writes (ResolverPure.v
-   format_eq_write, for formatters that leave strings alone: finding D22) *)
+   format_eq_write_all; since the fix of D22 for every value formatter) *)
 Theorem format_refines_off fuel n p c text sc :
-  cache_ok rules c -> formatter_keeps_strings formatter -> pattern_named m n = Some p ->
+  cache_ok rules c -> pattern_named m n = Some p ->
   format_pattern overflow_checks call_function transform formatter rules custom_as_string
     unescape_write unescape_to_string f64_from_str (Bundle m false) args (S fuel) p c = Done (text, sc) ->
   ~ In TooManyPlaceables (sc_errors sc) ->
   Eval call_function transform formatter rules custom_as_string unescape_write f64_from_str m args open_by_structure n
     (text, sc_errors sc, sc_calls sc).
 Proof.
-  intros Hc Hf Hnm H Hn.
-  rewrite (format_eq_write overflow_checks call_function transform formatter rules custom_as_string
-             unescape_write unescape_to_string f64_from_str (Bundle m false) args fuel p c Hf) in H.
+  intros Hc Hnm H Hn.
+  rewrite (format_eq_write_all overflow_checks call_function transform formatter rules custom_as_string
+             unescape_write unescape_to_string f64_from_str (Bundle m false) args fuel p c) in H.
   destruct (write false (S fuel) p c) as [[o sc1]|t|] eqn:E; try discriminate. injection H as <- <-.
   destruct (write_refines_off overflow_checks call_function transform formatter rules custom_as_string
               unescape_write unescape_to_string f64_from_str m args Hun (S fuel) n p c o sc1 Hc Hnm E) as [T J].
